@@ -317,10 +317,8 @@ func touch(sl []int) {
 		sum += x
 	}
 
-	touchSink += sum
+	simrt.AddVar(63, int64(sum)) // keeps the reads alive without sharing a plain variable
 }
-
-var touchSink int
 
 type joinHandle struct {
 	out     <-chan []int
@@ -737,7 +735,7 @@ func checkJoin(prop string, sc *JoinSc, res *simrt.Result) Verdict {
 		checkUniteNoSplit(&v, sc, jv, res)
 	case "C16":
 		checkJoinStop(&v, sc, jv, res)
-	case "C19", "C20":
+	case "C19":
 		if jv.stopRet >= 0 {
 			checkGoroutines(&v, res, jv.stopRet, "Stop returned", true)
 		} else {
